@@ -205,6 +205,112 @@ J(name, env, a) ==
          ELSE None
 
 (***************************************************************************)
+(* Aggregate hashes (env.c mallocTransaction / mallocTapEnv, txEnv.c,      *)
+(* elementsJets.c *_hash).  A digest is a symbolic term                    *)
+(*   <<"sha", parts>>,  part = <<"h", hex>> (bytes given in hex) |         *)
+(*   <<"u8", n>> | <<"u32", U32>> | <<"u64", U64>> | <<"str", s>> |        *)
+(*   <<"t", term>> (the 32 bytes of another digest) | <<"ref", jet name>>  *)
+(* which the harness hashes with real SHA-256 and compares with what the   *)
+(* jet returned (TLC cannot compute SHA-256; the structure is the spec).   *)
+(***************************************************************************)
+Sha(parts) == <<"sha", parts>>
+PH(x) == <<"h", x>>
+PU8(n) == <<"u8", n>>
+PU32(x) == <<"u32", x>>
+PU64(x) == <<"u64", x>>
+PT(t) == <<"t", t>>
+PR(name) == <<"ref", name>>            \* the digest of the (global) hash jet of that name, as the harness computed it from its term
+\* sha256_confidential / sha256_confAmt (ops.c): prefix byte, then the 32 bytes; null = 0x00; a null amount is explicit 0
+ConfParts(c, even) == CASE c[1] = "explicit" -> <<PU8(1), PH(c[2])>>
+                        [] c[1] = "conf" -> <<PU8(even + c[2]), PH(c[3])>>
+                        [] OTHER -> <<PU8(0)>>
+AssetParts(c) == ConfParts(c, 10)
+NonceParts(c) == ConfParts(c, 2)
+AmtParts(c) == CASE c[1] = "explicit" -> <<PU8(1), PU64(c[2])>>
+                 [] c[1] = "conf" -> <<PU8(8 + c[2]), PH(c[3])>>
+                 [] OTHER -> <<PU8(1), PU64(Zero64)>>
+RECURSIVE Cat(_, _)
+Cat(f(_), k) == IF k = 0 THEN <<>> ELSE Cat(f, k - 1) \o f(k)         \* f(1) \o ... \o f(k)
+\* per input
+OutpointParts(i) == (IF i.pegin = "" THEN <<PU8(0)>> ELSE <<PU8(1), PH(i.pegin)>>) \o <<PH(i.txid), PU32(i.vout)>>
+AnnexParts(i) == IF i.annex.present THEN <<PU8(1), PH(i.annex.data.sha)>> ELSE <<PU8(0)>>
+ExplicitId(h) == <<PU8(1), PH(h)>>
+IssAssetAmtParts(i) == IF IssKind(i) = "none" THEN <<PU8(0), PU8(0)>>
+                       ELSE ExplicitId(i.issuance.derived.asset) \o AmtParts(i.issuance.amount)
+IssTokenAmtParts(i) == IF IssKind(i) = "none" THEN <<PU8(0), PU8(0)>>
+                       ELSE ExplicitId(i.issuance.derived.token) \o (IF IssKind(i) = "new" THEN AmtParts(i.issuance.keys) ELSE <<PU8(1), PU64(Zero64)>>)
+IssBlindingParts(i) == CASE IssKind(i) = "none" -> <<PU8(0)>>
+                         [] IssKind(i) = "new" -> <<PU8(1), PH(Zero256), PH(i.issuance.entropy_field)>>
+                         [] OTHER -> <<PU8(1), PH(i.issuance.blinding), PH(i.issuance.derived.entropy)>>
+IssProofParts(i) == <<PH(IssAssetProof(i)), PH(IssTokenProof(i))>>
+\* per output
+OutSurj(o) == IF IsConf(o.asset) THEN o.surjection_proof.sha ELSE EmptySha
+OutRange(o) == IF IsConf(o.value) THEN o.range_proof.sha ELSE EmptySha
+\* whole transaction
+OverInputs(env, f(_)) == Sha(Cat(LAMBDA k : f(env.inputs[k]), Len(env.inputs)))
+OverOutputs(env, f(_)) == Sha(Cat(LAMBDA k : f(env.outputs[k]), Len(env.outputs)))
+HInputOutpoints(env) == OverInputs(env, OutpointParts)
+HInputAmounts(env) == OverInputs(env, LAMBDA i : AssetParts(i.utxo.asset) \o AmtParts(i.utxo.value))
+HInputScripts(env) == OverInputs(env, LAMBDA i : <<PH(i.utxo.spk.sha)>>)
+HInputUtxos(env) == Sha(<<PR("input_amounts_hash"), PR("input_scripts_hash")>>)
+HInputSequences(env) == OverInputs(env, LAMBDA i : <<PU32(i.sequence)>>)
+HInputAnnexes(env) == OverInputs(env, AnnexParts)
+HInputScriptSigs(env) == OverInputs(env, LAMBDA i : <<PH(i.script_sig.sha)>>)
+HInputs(env) == Sha(<<PR("input_outpoints_hash"), PR("input_sequences_hash"), PR("input_annexes_hash")>>)
+HIssAssetAmts(env) == OverInputs(env, IssAssetAmtParts)
+HIssTokenAmts(env) == OverInputs(env, IssTokenAmtParts)
+HIssRangeProofs(env) == OverInputs(env, IssProofParts)
+HIssBlinding(env) == OverInputs(env, IssBlindingParts)
+HIssuances(env) == Sha(<<PR("issuance_asset_amounts_hash"), PR("issuance_token_amounts_hash"), PR("issuance_range_proofs_hash"), PR("issuance_blinding_entropy_hash")>>)
+HOutputAmounts(env) == OverOutputs(env, LAMBDA o : AssetParts(o.asset) \o AmtParts(o.value))
+HOutputNonces(env) == OverOutputs(env, LAMBDA o : NonceParts(o.nonce))
+HOutputScripts(env) == OverOutputs(env, LAMBDA o : <<PH(o.spk.sha)>>)
+HOutputRangeProofs(env) == OverOutputs(env, LAMBDA o : <<PH(OutRange(o))>>)
+HOutputSurjProofs(env) == OverOutputs(env, LAMBDA o : <<PH(OutSurj(o))>>)
+HOutputs(env) == Sha(<<PR("output_amounts_hash"), PR("output_nonces_hash"), PR("output_scripts_hash"), PR("output_range_proofs_hash")>>)
+HTx(env) == Sha(<<PU32(env.version), PU32(env.locktime), PR("inputs_hash"), PR("outputs_hash"), PR("issuances_hash"),
+                  PR("output_surjection_proofs_hash"), PR("input_utxos_hash")>>)
+\* taproot: tagged leaf hash, path hash, environment hash
+TapTag == Sha(<<<<"str", "TapLeaf/elements">>>>)
+HTapleaf(env) == Sha(<<PT(TapTag), PT(TapTag), PU8(env.tap.leaf_version), PU8(32), PH(env.script_cmr)>>)
+HTappath(env) == Sha([k \in 1..Len(env.tap.path) |-> PH(env.tap.path[k])])
+HTapEnv(env) == Sha(<<PR("tapleaf_hash"), PR("tappath_hash"), PH(env.tap.internal_key)>>)
+HSigAll(env) == Sha(<<PH(env.genesis), PH(env.genesis), PR("tx_hash"), PR("tap_env_hash"), PU32(U32(env.ix))>>)
+\* per index
+HOutput(o) == Sha(AssetParts(o.asset) \o AmtParts(o.value) \o NonceParts(o.nonce) \o <<PH(o.spk.sha), PH(OutRange(o))>>)
+HInputUtxo(i) == Sha(AssetParts(i.utxo.asset) \o AmtParts(i.utxo.value) \o <<PH(i.utxo.spk.sha)>>)
+HInput(i) == Sha(OutpointParts(i) \o <<PU32(i.sequence)>> \o AnnexParts(i))
+HIssuance(i) == Sha(IF IssKind(i) = "none"
+                    THEN <<PU8(0), PU8(0), PU8(0), PU8(0)>> \o IssProofParts(i) \o <<PU8(0)>>
+                    ELSE ExplicitId(i.issuance.derived.asset) \o AmtParts(i.issuance.amount) \o ExplicitId(i.issuance.derived.token)
+                         \o (IF IssKind(i) = "new" THEN AmtParts(i.issuance.keys) ELSE <<PU8(1), PU64(Zero64)>>)
+                         \o IssProofParts(i) \o IssBlindingParts(i))
+GlobalHashJets == {"input_outpoints_hash", "input_amounts_hash", "input_scripts_hash", "input_utxos_hash", "input_sequences_hash",
+                   "input_annexes_hash", "input_script_sigs_hash", "inputs_hash", "issuance_asset_amounts_hash",
+                   "issuance_token_amounts_hash", "issuance_range_proofs_hash", "issuance_blinding_entropy_hash", "issuances_hash",
+                   "output_amounts_hash", "output_nonces_hash", "output_scripts_hash", "output_range_proofs_hash",
+                   "output_surjection_proofs_hash", "outputs_hash", "tx_hash", "tapleaf_hash", "tappath_hash", "tap_env_hash", "sig_all_hash"}
+IndexHashJets == {"output_hash", "input_utxo_hash", "input_hash", "issuance_hash"}
+HashJets == GlobalHashJets \cup IndexHashJets
+\* the answer of a hash jet with symbolic digests in place of the 256-bit words
+JH(name, env, a) ==
+  CASE name = "input_outpoints_hash" -> HInputOutpoints(env) [] name = "input_amounts_hash" -> HInputAmounts(env)
+    [] name = "input_scripts_hash" -> HInputScripts(env) [] name = "input_utxos_hash" -> HInputUtxos(env)
+    [] name = "input_sequences_hash" -> HInputSequences(env) [] name = "input_annexes_hash" -> HInputAnnexes(env)
+    [] name = "input_script_sigs_hash" -> HInputScriptSigs(env) [] name = "inputs_hash" -> HInputs(env)
+    [] name = "issuance_asset_amounts_hash" -> HIssAssetAmts(env) [] name = "issuance_token_amounts_hash" -> HIssTokenAmts(env)
+    [] name = "issuance_range_proofs_hash" -> HIssRangeProofs(env) [] name = "issuance_blinding_entropy_hash" -> HIssBlinding(env)
+    [] name = "issuances_hash" -> HIssuances(env) [] name = "output_amounts_hash" -> HOutputAmounts(env)
+    [] name = "output_nonces_hash" -> HOutputNonces(env) [] name = "output_scripts_hash" -> HOutputScripts(env)
+    [] name = "output_range_proofs_hash" -> HOutputRangeProofs(env) [] name = "output_surjection_proofs_hash" -> HOutputSurjProofs(env)
+    [] name = "outputs_hash" -> HOutputs(env) [] name = "tx_hash" -> HTx(env) [] name = "tapleaf_hash" -> HTapleaf(env)
+    [] name = "tappath_hash" -> HTappath(env) [] name = "tap_env_hash" -> HTapEnv(env) [] name = "sig_all_hash" -> HSigAll(env)
+    [] name = "output_hash" -> IF InRange(a, Len(env.outputs)) THEN Some(HOutput(At(env.outputs, a))) ELSE None
+    [] name = "input_utxo_hash" -> IF InRange(a, Len(env.inputs)) THEN Some(HInputUtxo(At(env.inputs, a))) ELSE None
+    [] name = "input_hash" -> IF InRange(a, Len(env.inputs)) THEN Some(HInput(At(env.inputs, a))) ELSE None
+    [] name = "issuance_hash" -> IF InRange(a, Len(env.inputs)) THEN Some(HIssuance(At(env.inputs, a))) ELSE None
+
+(***************************************************************************)
 (* Laws of the model (checked by TLC over enumerated environments).        *)
 (***************************************************************************)
 \* a current_* jet shows what the indexed jet shows at the environment's own index
